@@ -43,7 +43,7 @@ def main():
     a = ap.parse_args()
     d = os.path.join(VERIF, "seeded", a.name)
     meta = json.load(open(os.path.join(d, "meta.json")))
-    checks = a.checks.split(",") if a.checks else [meta["property"]]
+    checks = a.checks.split(",") if a.checks else meta.get("eval_checks", [meta["property"]])
     wt = "/tmp/e/%s" % a.name
     if os.path.exists(wt):
         sh("git -C %s worktree remove --force %s" % (REPO, wt))
